@@ -41,7 +41,8 @@ MANIFEST = {
     "note": "Trusted: TLC, the independent walker (it only locates sections; all decoding is done by TLA+ "
             "operators), strconv for float64 <-> 9-digit decimals, the transcription of the TN5176 appendices "
             "(cross-checked once against the library's tables). Not covered: FontMatrix/BlueScale within the "
-            "writer's documented tolerance of the default (1e-5 / 1e-6), |reals| outside 1e-290..1e290, ItalicAngle "
+            "writer's documented tolerance of the default (1e-5 / 1e-6), values of reals outside 1e-290..1e290 (for "
+            "those only termination and success of Write/Read are judged; a call is a failure after 8 s), ItalicAngle "
             "below 1e-3, BlueValues deltas beyond int16, glyph outlines (C04/C05), widths whose distance to "
             "nominalWidthX exceeds 32767, strings other than printable ASCII.",
     "technique": "TLA+ model checking (TLC) of CFFLayout.tla + TLC-generated abstract fonts replayed into "
@@ -357,7 +358,11 @@ def run(ctx):
         "strings are printable ASCII; glyph outlines are fixed small shapes (outline fidelity is C04/C05)",
         "an absent Encoding means the Standard Encoding (TN5176 default); for CID-keyed fonts an absent top-level "
         "FontMatrix means the identity and an absent Font DICT FontMatrix means 0.001 0 0 0.001 0 0",
-        "a 256-glyph encoding without two consecutive codes is not representable in CFF and is not generated",
+        "a 256-glyph encoding without two consecutive codes is not representable in CFF and is not generated; a font "
+        "with more than 64609 non-standard strings (SIDs end at 64999) is generated (thorough tier) and may be refused "
+        "by Write, but must not be written wrongly",
+        "fonts marked loose (FontMatrix numbers 1e-320, 1e305, -7e-305): the matrix values are not compared, Write and "
+        "Read must return (8 s limit per call, typical call about 1 ms) and succeed",
     ]
     # 1. the design: exhaustive model checking of the offset loop
     cfg = "CFFLayout.cfg" if ctx.quick() else "CFFLayoutFull.cfg"
@@ -410,7 +415,7 @@ def run(ctx):
     # 2d. large fonts
     nbig = 0
     if not ctx.quick():
-        big = pool.add(_gen(ctx, "big", bigns=(3000, 65534, 65535), label="CFFLayoutGen big", timeout=1800))
+        big = pool.add(_gen(ctx, "big", bigns=(3000, 60000, 65534, 65535), label="CFFLayoutGen big", timeout=1800))
         nbig = len(big)
         bad += _validate_all(ctx, binp, big, "big", stats, chunk=2)
 
